@@ -769,6 +769,29 @@ static int addRequest(KSI_AsyncClient *c, KSI_AsyncHandle *handle, void *req,
 	res = pdu_serialize(pdu, &raw, &len);
 	if (res != KSI_OK) goto cleanup;
 
+	/* A multy-payload request needs a separate conf request handle. Create it before the request is
+	 * handed over to the output queue and the cache, as a failure after that can not be undone. */
+	if (hasConfig && hasRequest) {
+		KSI_Config *reqConf = NULL;
+		KSI_Config *confRef = NULL;
+
+		res = req_new(c->ctx, &tmpReq);
+		if (res != KSI_OK) goto cleanup;
+
+		res = req_getConfig(req, &reqConf);
+		if (res != KSI_OK) goto cleanup;
+
+		res = req_setConfig(tmpReq, (confRef = KSI_Config_ref(reqConf)));
+		if (res != KSI_OK) {
+			KSI_Config_free(confRef);
+			goto cleanup;
+		}
+
+		res = asyncHandle_new(c->ctx, tmpReq, &confHandle);
+		if (res != KSI_OK) goto cleanup;
+		tmpReq = NULL;
+	}
+
 	handle->id = requestId;
 	handle->raw = raw;
 	raw = NULL;
@@ -792,26 +815,6 @@ static int addRequest(KSI_AsyncClient *c, KSI_AsyncHandle *handle, void *req,
 	if (hasConfig) {
 		/* Check if this is a multy-payload request. */
 		if (hasRequest) {
-			KSI_Config *reqConf = NULL;
-			KSI_Config *confRef = NULL;
-
-			/* Create a separate conf request handle. */
-			res = req_new(c->ctx, &tmpReq);
-			if (res != KSI_OK) goto cleanup;
-
-			res = req_getConfig(req, &reqConf);
-			if (res != KSI_OK) goto cleanup;
-
-			res = req_setConfig(tmpReq, (confRef = KSI_Config_ref(reqConf)));
-			if (res != KSI_OK) {
-				KSI_Config_free(confRef);
-				goto cleanup;
-			}
-
-			res = asyncHandle_new(c->ctx, tmpReq, &confHandle);
-			if (res != KSI_OK) goto cleanup;
-			tmpReq = NULL;
-
 			/* Copy the send state from the initial handle. */
 			confHandle->state = handle->state;
 			confHandle->reqTime = handle->reqTime;
